@@ -1,5 +1,5 @@
 (* Props/C09.v -- statements claimed for C09 (connectivity queries vs brute-force counting). *)
-From Coq Require Import List Arith.
+From Coq Require Import List Arith ZArith.
 From LaPyV Require Import Base.ListAux Model.TetMesh Model.TriaAdj Proofs.TriaAdjP.
 Import ListNotations.
 
@@ -33,3 +33,25 @@ Theorem C09_has_free_vertices_iff : forall n flat, Forall (fun i => i < n) flat 
   (has_free_vertices n flat = true <-> exists k, k < n /\ ~ In k flat).
 Proof. exact has_free_vertices_iff. Qed.
 Print Assumptions C09_has_free_vertices_iff.
+
+(* vertex_degrees: the number of distinct neighbours of a vertex; euler: V - E + F with E the number of undirected edges;
+   edges() on oriented meshes: every inner edge (i < j, in exactly two triangles) once, with triangles that carry its two half-edges *)
+Theorem C09_vertex_degrees_count_distinct_neighbours : forall n ts j, j < n ->
+  exists nb, NoDup nb /\ (forall i, In i nb <-> In (i, j) (sym_keys ts)) /\ nth j (vertex_degrees n ts) 0 = length nb.
+Proof. exact vertex_degrees_count_neighbours. Qed.
+Print Assumptions C09_vertex_degrees_count_distinct_neighbours.
+Theorem C09_euler_is_V_minus_E_plus_F : forall ts, Forall distinct_tri ts ->
+  euler ts = (Z.of_nat (length (unique_nat (tri_flat ts)))
+              - Z.of_nat (length (filter (fun k => Nat.ltb (fst k) (snd k)) (unique_pairs (sym_keys ts))))
+              + Z.of_nat (length ts))%Z.
+Proof. exact euler_is_V_minus_E_plus_F. Qed.
+Print Assumptions C09_euler_is_V_minus_E_plus_F.
+Theorem C09_edges_lists_inner_edges_with_their_triangles : forall ts keys tids, edges_inner ts = Ok (keys, tids) ->
+  NoDup keys /\
+  (forall i j, In (i, j) keys <-> i < j /\ In (i, j) (hedges ts) /\ count_pair (i, j) (sym_keys ts) = 2) /\
+  length tids = length keys /\
+  Forall (fun '((i, j), (a, b)) =>
+            (In (i, j) (hedges ts) -> exists t, nth_error ts a = Some t /\ In (i, j) (hedges1 t)) /\
+            (In (j, i) (hedges ts) -> exists t, nth_error ts b = Some t /\ In (j, i) (hedges1 t))) (combine keys tids).
+Proof. exact edges_inner_spec. Qed.
+Print Assumptions C09_edges_lists_inner_edges_with_their_triangles.
